@@ -20,6 +20,12 @@ RULE = ('(1) random strings assembled from DiffX-shaped fragments (headers '
         'the headers of the file (text and offset, from the spec serializer '
         'layout) in order. Non-trivial = input contains "#"; distinct = '
         'fingerprint of the text.')
+RULE += (
+         ' Also: one lexer object tokenising 2-3 texts at once (token '
+         'streams consumed round-robin, and in threads under the seeded '
+         'scheduler) must yield for each text what a fresh lexer yields. '
+         'Process axes (DESIGN 2.8): 2 of 16 shards run under python -O, 4 '
+         'of 16 after a hostile warm-up of the library.')
 FLOOR = {'quick': 8000, 'thorough': 200000}
 REQUIRED_REACH = []
 REQUIRED_COUNTERS = ['random_strings', 'writer_files', 'header_tokens_checked']
@@ -264,8 +270,15 @@ def check_shared_lexer(texts_, obs, rng):
     """One lexer object, several texts at once: token streams consumed
     round-robin in one thread, then in threads under the seeded scheduler.
     Each must equal what a fresh lexer yields for that text alone."""
-    solo = [[[i, str(t), v] for i, t, v in
-             lexer().get_tokens_unprocessed(x)] for x in texts_]
+    try:
+        with Watchdog(30):
+            solo = [[[i, str(t), v] for i, t, v in
+                     lexer().get_tokens_unprocessed(x)] for x in texts_]
+    except (CaseTimeout, Exception):
+        # tokenising one of the texts alone already fails: that is the
+        # lossless pass's finding, not an interference
+        obs.count('shared_lexer_group_skipped(solo run failed)')
+        return
     lx = lexer()
     gens = [lx.get_tokens_unprocessed(x) for x in texts_]
     got = [[] for _ in texts_]
